@@ -1,16 +1,31 @@
 #!/bin/bash
-# run_seeds.sh [tier] [ids...]: apply each seeded change to /repo, run that property's check, undo; one line per seed
+# run_seeds.sh [tier] [ids...]: apply each seeded change to /repo (git -C /repo apply), run that property's check, undo
+# (git -C /repo checkout -- .); one line per seed; the outcome is recorded in seeded/<id>/meta.json (confirmed.now).
+# Evidence of these runs goes to a scratch directory: committed evidence comes from the unchanged tree only.
 tier="${1:-quick}"; shift
 cd "$(dirname "$0")/.."
 ids="$@"; [ -z "$ids" ] && ids=$(ls seeded)
+ev=$(mktemp -d /tmp/seedrun_ev.XXXX)
 for s in $ids; do
   pid=$(python3 -c "import json;print(json.load(open('seeded/$s/meta.json'))['property'])")
+  [ -n "$(git -C /repo status --porcelain --untracked-files=no)" ] && { echo "/repo is not clean"; exit 2; }
   git -C /repo apply /verif/seeded/$s/patch.diff || { echo "$s: patch does not apply"; continue; }
   t0=$(date +%s)
-  out=$(./check $pid --tier $tier 2>&1); rc=$?
+  out=$(VF_EVIDENCE_DIR=$ev ./check $pid --tier $tier 2>&1); rc=$?
   t1=$(date +%s)
   git -C /repo checkout -- .
   nv=$(echo "$out" | grep -c "^VIOLATION")
   echo "$s property=$pid rc=$rc violations=$nv $((t1-t0))s $(echo "$out" | grep "^\[$pid\]" | cut -c1-150)"
   echo "$out" | grep -A1 "^VIOLATION" | grep obligation | head -1 | cut -c1-260
+  python3 - "$s" "$rc" "$nv" "$tier" <<'PY'
+import json, sys
+s, rc, nv, tier = sys.argv[1:5]
+p = f"seeded/{s}/meta.json"
+m = json.load(open(p))
+c = m.setdefault("confirmed", {})
+c["now"] = (f"caught ({nv} violations)" if rc == "1" and int(nv) > 0 else f"NOT caught (exit {rc})") + f" [{tier}]"
+c["now_run"] = f"git -C /repo apply seeded/{s}/patch.diff; ./check {m['property']} --tier {tier}; git -C /repo checkout -- ."
+json.dump(m, open(p, "w"), indent=1)
+PY
 done
+rm -rf $ev
